@@ -229,7 +229,7 @@ var faults = []string{"duplicate", "delayed", "unsolicited", "stray", "stray-los
 var strayCodes = []byte{0x00, 0xC0, 0xC3, 0xC4, 0xC1, 0xC9, 0xD4, 0xFF, 0x81}
 
 func TestPairs(t *testing.T) {
-	cat := hx.Catalogue()
+	cat := append(hx.Catalogue(), hx.RawEntries()...) // library commands and caller-defined ones
 	suites := hx.Suites9()
 	n := 0
 	for _, inSession := range []bool{false, true} {
@@ -271,7 +271,7 @@ func TestPairs(t *testing.T) {
 // the real response. It decodes perfectly well as the awaited response, so only
 // the operation comparison can reject it.
 func TestNeighbourOperations(t *testing.T) {
-	cat := hx.Catalogue()
+	cat := append(hx.Catalogue(), hx.RawEntries()...) // library commands and caller-defined ones
 	suites := hx.Suites9()
 	type mask struct{ nf, cmd byte }
 	var masks []mask
@@ -343,7 +343,7 @@ func TestNeighbourOperations(t *testing.T) {
 }
 
 func TestRandomHistories(t *testing.T) {
-	cat := hx.Catalogue()
+	cat := append(hx.Catalogue(), hx.RawEntries()...) // library commands and caller-defined ones
 	ev.Check(t, "TestRandomHistories", ev.PickN(1200, 600000), func(t *rapid.T) {
 		inSession := rapid.Bool().Draw(t, "inSession")
 		n := rapid.IntRange(2, 6).Draw(t, "calls")
